@@ -5,9 +5,9 @@ import (
 	"fmt"
 	"io"
 	"os"
+	"path/filepath"
 
 	"github.com/go-git/go-billy/v5"
-	"github.com/go-git/go-billy/v5/util"
 )
 
 var ErrClockNotExist = errors.New("clock doesn't exist")
@@ -106,5 +106,27 @@ func (pc *PersistedClock) read() error {
 
 func (pc *PersistedClock) Write() error {
 	data := []byte(fmt.Sprintf("%d", pc.counter))
-	return util.WriteFile(pc.root, pc.filePath, data, 0644)
+
+	// Never rewrite the clock file in place: a process dying between the truncation and the end
+	// of the write would leave an empty or shortened number behind, and the repository would
+	// then refuse to open or the clock would jump backward. Instead, write a temporary file and
+	// rename it over the clock. The temporary file lives next to the clock directory, not in it,
+	// as every file of that directory is loaded as a clock.
+	dir := filepath.Dir(filepath.Dir(pc.filePath))
+	tmp, err := pc.root.TempFile(dir, "clock-"+filepath.Base(pc.filePath)+"-")
+	if err != nil {
+		return err
+	}
+
+	_, err = tmp.Write(data)
+	if errClose := tmp.Close(); err == nil {
+		err = errClose
+	}
+	if err == nil {
+		err = pc.root.Rename(tmp.Name(), pc.filePath)
+	}
+	if err != nil {
+		_ = pc.root.Remove(tmp.Name())
+	}
+	return err
 }
